@@ -20,8 +20,8 @@ from vsim.tape import Tape, mix
 from vsim.world import World
 
 ID = "C07"
-RUNS = {"quick": 640, "thorough": 8000}
-WALL = {"quick": 1500, "thorough": 6 * 3600}
+RUNS = {"quick": 640, "thorough": 6400}
+WALL = {"quick": 3600, "thorough": 8 * 3600}
 
 CLI_CMDS = ["blocking-async", "clone-abuse", "dry", "file-header", "file-placement", "improper-logging",
             "lazy-ignores", "lbyl", "magic-numbers", "method-property", "nesting", "perf", "pipeline",
